@@ -66,7 +66,8 @@ func (s *Server) Wait() {
 	<-s.ch
 }
 func (s *Server) listen() {
-	if atomic.SwapUint32(&s.run, 1) != 0 {
+	// Only one of this thread and a Close that came first may run the shutdown.
+	if !atomic.CompareAndSwapUint32(&s.run, 0, 1) {
 		return
 	}
 	if bugtrack.Enabled {
@@ -113,6 +114,12 @@ func (s *Server) listen() {
 }
 func (s *Server) shutdown() {
 	s.cancel()
+	// Listeners added but not yet taken by the event loop must be closed (and
+	// waited for) too: they send on delListener when they stop.
+	for len(s.new) > 0 {
+		l := <-s.new
+		s.active[l.name] = l
+	}
 	for _, v := range s.sessions {
 		v.Close()
 	}
@@ -140,7 +147,8 @@ func (s *Server) shutdown() {
 //
 // This will signal the shutdown of all attached Listeners and Sessions.
 func (s *Server) Close() error {
-	if s.cancel(); atomic.LoadUint32(&s.run) == 0 {
+	if s.cancel(); atomic.CompareAndSwapUint32(&s.run, 0, 1) {
+		// The event thread did not start (yet): it will not, do its work here.
 		s.shutdown()
 	}
 	<-s.ch
